@@ -499,6 +499,11 @@ func (e *kvElection) becomeFollower() {
 		}
 	}
 
+	if fromState == StateStopped {
+		// A goroutine winding down after Stop: the election stays STOPPED and starts nothing
+		return
+	}
+
 	wasLeader := e.isLeader.Load()
 	e.isLeader.Store(false)
 	e.state.Store(StateFollower)
